@@ -152,6 +152,12 @@ pub const NESTS: &[Nest] = &[
     Nest { name: "unclosed-map", build: |d| wrap_expr("{1:".repeat(d)) },
     Nest { name: "unclosed-call", build: |d| wrap_expr("f(".repeat(d)) },
     Nest { name: "comment-nest", build: |d| format!("{} party A; {}", "/*".repeat(d), "*/".repeat(d)) },
+    Nest { name: "struct-field-then-spread", build: |d| wrap_expr(format!("{}x{}", "T{f:".repeat(d), ",...b}".repeat(d))) },
+    Nest { name: "variant-field-then-spread", build: |d| wrap_expr(format!("{}x{}", "T::C{f:".repeat(d), ",...b}".repeat(d))) },
+    Nest { name: "struct-two-fields-then-spread", build: |d| wrap_expr(format!("{}x{}", "T{g:1,f:".repeat(d), ",...T{g:2,f:x,}}".repeat(d))) },
+    Nest { name: "struct-without-trailing-comma", build: |d| wrap_expr(format!("{}x{}", "T{f:".repeat(d), "}".repeat(d))) },
+    Nest { name: "unclosed-struct", build: |d| wrap_expr("T{g:1,f:".repeat(d)) },
+    Nest { name: "unclosed-struct-after-spread-dots", build: |d| wrap_expr(format!("{}x{}", "T{f:".repeat(d), ",...".repeat(d))) },
     Nest { name: "list-of-struct", build: |d| wrap_expr(format!("{}1{}", "[T{f:".repeat(d), ",g:x,}]".repeat(d))) },
 ];
 
@@ -279,7 +285,7 @@ impl Property for C12 {
         "C12"
     }
     fn rule(&self) -> String {
-        "growth: 8 families of programs whose length grows linearly with n (chains of aliases / records / locals / inputs that name the previous definition twice, many outputs reading one input, many txs) are parsed and analysed for n = 4, 6, .. 40 and the thread CPU time must not triple twice in a row per step of 2; grammar: random expansions (depth <= 12, implicit whitespace / comments between tokens of non-atomic rules) of tx3.pest itself, read with pest_meta at run time, so every rule the grammar accepts is exercised; mutation: 12 token-level mutators (delete, duplicate, swap, splice, numeral / hex stretching, multi-byte insertion, keyword / punctuation replacement, truncation, block duplication, renaming) applied 1..3 times to the example corpus and to generated programs; nesting (exhaustive): 30 recursive constructs x depth 1..64 (and 4..9 of those depths once more through an unoptimised probe binary on a 2 MiB thread). Oracle: parse_string returns Ok or Err and analyze returns, observed through the panic hook / worker signals / watchdog; termination of the parser is decided on logical steps (pest call limit 2e6 + 5000 per input byte; the valid corpus needs ~5 calls per byte). Non-trivial: the input parses, or fails beyond its first line; distinct = distinct input texts.".into()
+        "growth: 8 families of programs whose length grows linearly with n (chains of aliases / records / locals / inputs that name the previous definition twice, many outputs reading one input, many txs) are parsed and analysed for n = 4, 6, .. 40 and the thread CPU time must not triple twice in a row per step of 2; grammar: random expansions (depth <= 12, implicit whitespace / comments between tokens of non-atomic rules) of tx3.pest itself, read with pest_meta at run time, so every rule the grammar accepts is exercised; mutation: 12 token-level mutators (delete, duplicate, swap, splice, numeral / hex stretching, multi-byte insertion, keyword / punctuation replacement, truncation, block duplication, renaming) applied 1..3 times to the example corpus and to generated programs; many-diagnostics: one tx with 21..90 erroneous blocks of ten kinds (undefined names in every position, undefined types, implicit constructors of variants, ill-typed directive fields) in random order; nesting (exhaustive): 36 recursive constructs (incl. constructors nested through a field and closed by a spread, without trailing comma, unclosed) x depth 1..64 (and 4..9 of those depths once more through an unoptimised probe binary on a 2 MiB thread). Oracle: parse_string returns Ok or Err and analyze returns, observed through the panic hook / worker signals / watchdog; termination of the parser is decided on logical steps (pest call limit 2e6 + 5000 per input byte; the valid corpus needs ~5 calls per byte). Non-trivial: the input parses, or fails beyond its first line; distinct = distinct input texts.".into()
     }
     fn assumptions(&self) -> Vec<String> {
         vec![
@@ -320,6 +326,7 @@ impl Property for C12 {
                 Phase::new("nesting", nest, Profile::Checked).exhaustive().budget(30_000),
                 Phase::new("grammar", 12_000, Profile::Checked),
                 Phase::new("mutation", 25_000, Profile::Checked),
+                Phase::new("many-diagnostics", 400, Profile::Checked),
             ],
             Tier::Thorough => vec![
                 Phase::new("growth", CHAINS.len() as u64, Profile::Release).exhaustive().budget(120_000),
@@ -327,6 +334,7 @@ impl Property for C12 {
                 Phase::new("grammar", 600_000, Profile::Checked),
                 Phase::new("mutation", 1_200_000, Profile::Checked),
                 Phase::new("mutation-release", 300_000, Profile::Release),
+                Phase::new("many-diagnostics", 20_000, Profile::Checked),
             ],
         }
     }
@@ -406,6 +414,34 @@ impl Property for C12 {
                 ctx.nontrivial(fnv64(src.as_bytes()));
                 if idx % 64 == 9 {
                     ctx.sample(|| json!({"construct": n.name, "depth": d, "source": src}));
+                }
+            }
+            "many-diagnostics" => {
+                // one tx with 21..90 erroneous sites of different kinds (located and unlocated diagnostics) in a
+                // random source order: whatever collects, orders or de-duplicates a tx's diagnostics sees many
+                let n = 21 + rng.usize(70);
+                let mut blocks: Vec<String> = (0..n)
+                    .map(|k| match rng.below(10) {
+                        0 => format!("output o{k} {{ to: Nope{k}, amount: Ada(1), }}"),
+                        1 => format!("output {{ to: A, amount: Ada(nope{k}), }}"),
+                        2 => format!("input i{k} {{ from: A, datum_is: Missing{k}, min_amount: Ada(1), }}"),
+                        3 => format!("output {{ to: A, amount: Ada(1), datum: R {{ f: nope{k}, }}, }}"),
+                        4 => format!("input j{k} {{ from: Nope{k}, min_amount: nope{k}b, }}"),
+                        5 => format!("mint {{ amount: NoAsset{k}(1), }}"),
+                        6 => format!("reference r{k} {{ ref: nope{k}, }}"),
+                        7 => format!("output {{ to: A, amount: Ada(1), datum: V {{ f: 1, }}, }}"),
+                        8 => format!("cardano::withdrawal {{ from: A, amount: true, redeemer: nope{k}, }}"),
+                        _ => format!("output {{ to: A, amount: Ada(p), datum: Missing{k} {{ f: p, }}, }}"),
+                    })
+                    .collect();
+                rng.shuffle(&mut blocks);
+                let sep = if rng.bool() { "\n  " } else { " " };
+                let src = format!("party A;\ntype R {{ f: Int, }}\ntype V {{ C1 {{ f: Int, }}, C2 {{ g: Int, }}, }}\ntx t(p: Int) {{{sep}{}{sep}}}\n", blocks.join(sep));
+                ctx.count("feature/many-diagnostics");
+                self.judge(ctx, &src, "many-diagnostics", "many-diagnostics");
+                ctx.nontrivial(fnv64(src.as_bytes()));
+                if idx % 199 == 0 {
+                    ctx.sample(|| json!({"origin": "many-diagnostics", "sites": n, "source": src.chars().take(500).collect::<String>()}));
                 }
             }
             "grammar" => {
